@@ -18,6 +18,8 @@ open Proto Pdf
       sstate <edges> <xs> <ws> <op>*                           -> normalised histogram after init and each op
              op = A<xs> (add_events) | R (reset);  ERR = constructor raises
       ttrials <box|gauss> <edges> <ts> <te> <sigma> <erfx> <erfy> <times>*  -> pd list per trial (one object)
+      gcache <cacheOn 0|1> <trial ids> (<raw_k> <norm_k>)*       -> pd list per evaluation (MultiDimGridPDF pd cache)
+      pprod  <b1> <b2> <ops: string of E|L|R>                  -> list per op (PDFProduct on two internal arrays)
       tstate2 <ts list> <te list> <edges> <prof> <op>*         -> what get_pd returns at each G (fixed code)
              op = L<edges> | Q<k> | X<k> (profile mutated outside) | M<edges> (interval array replaced
                   behind the PDF) | I<times> (initialize_for_new_trial) | G (get_pd)
@@ -127,6 +129,15 @@ def answer (line : String) : String :=
   | ["spd", vs] => fListD fF ((pList pF vs).map spatialPd)
   | ["psf", ss, ps] => fListD fF (((pList pF ss).zip (pList pF ps)).map (fun q => psfPd q.1 q.2))
   | ["ray", ss, ps] => fListD fF (((pList pF ss).zip (pList pF ps)).map (fun q => rayleighPd q.1 q.2))
+  | "gcache" :: on :: ids :: tabs =>
+      -- tabs: for trial id k the tokens 2k (raw values) and 2k+1 (norm values)
+      let tab : List (List Float) := tabs.map (pList pF)
+      let raw : Nat → List Float := fun k => tab.getD (2 * k) []
+      let norm : Nat → List Float := fun k => tab.getD (2 * k + 1) []
+      String.intercalate " " ((gRun (gEval (pB on) raw norm) ⟨none, none⟩ (pList pN ids)).map (fListD fF))
+  | ["pprod", b1, b2, ops] =>
+      let ops : List POp := (ops.toList.map (fun c => if c == 'E' then POp.evalProduct else if c == 'L' then POp.readLeft else POp.readRight))
+      String.intercalate " " ((pRun pStep ⟨pList pF b1, pList pF b2⟩ ops).map (fListD fF))
   | "tstate2" :: tss :: tes :: es :: p :: ops =>
       let (tss, tes) := (pList pF tss, pList pF tes)
       let table := boxTable tss tes
